@@ -50,6 +50,7 @@ type propertyConfig struct {
 	Trusted     []string
 	Explain     string
 	Extra       func(prog *Program, tier string) ([]*Obligation, []string) // extra obligations + notes
+	Simple      func(prog *Program, repo string, tier string) ([]simpleObligation, []string) // structurally decided obligations (copy / frame contracts)
 }
 
 var verifRoot = "/verif"
@@ -130,6 +131,12 @@ func runCheck(cfg *propertyConfig, tier, repo string, seed int) int {
 	if cfg.Extra != nil && prog != nil {
 		obs, ns := cfg.Extra(prog, tier)
 		all = append(all, obs...)
+		notes = append(notes, ns...)
+	}
+	var simple []simpleObligation
+	if cfg.Simple != nil && prog != nil {
+		so, ns := cfg.Simple(prog, repo, tier)
+		simple = append(simple, so...)
 		notes = append(notes, ns...)
 	}
 	var ln []string
@@ -270,6 +277,21 @@ func runCheck(cfg *propertyConfig, tier, repo string, seed int) int {
 			} else {
 				fail(o.Name, "obligation not discharged ("+o.Status+")", o.Output, o)
 			}
+		}
+	}
+	structural := 0
+	for _, so := range simple {
+		nObl++
+		if so.OK {
+			nDis++
+			structural++
+			backendTotals["structural"]++
+		} else {
+			o := &Obligation{Name: so.Name, Func: so.Func, Kind: "structural", File: so.File, Goal: TFalse, Status: "failed", Solver: "structural", Output: so.Detail}
+			fail(so.Name, "structural obligation failed: "+so.Detail, so.Detail, o)
+		}
+		if len(samples) < 6 && structural%17 == 1 {
+			samples = append(samples, map[string]interface{}{"obligation": so.Name, "kind": "structural", "at": so.File, "result": map[bool]string{true: "discharged", false: "failed"}[so.OK]})
 		}
 	}
 	if nObl == 0 {
